@@ -185,6 +185,12 @@ func (r *Reporter) readSourceLines(filename string, lineNum, before, after int) 
 		end = len(lines) - 1
 	}
 
+	// The file on disk is shorter than the reported line (changed since it was parsed, or the
+	// position was remapped by a //line directive): there is no such line to show
+	if lineNum < 1 || lineNum > len(lines) {
+		return sourceLines{}
+	}
+
 	if start >= len(lines) {
 		return sourceLines{}
 	}
